@@ -349,7 +349,10 @@ func (bn *baseNode) setModTime(mtime time.Time, u avfs.UserReader) bool {
 		return false
 	}
 
-	bn.mtime = mtime.UnixNano()
+	// A zero time.Time value leaves the modification time unchanged.
+	if !mtime.IsZero() {
+		bn.mtime = mtime.UnixNano()
+	}
 
 	return true
 }
